@@ -62,13 +62,7 @@ Qed.
 
 (* ---------- good names: Prop and bool ---------- *)
 Lemma good_name_b n : good_name n <-> good_nameb n = true.
-Proof.
-  destruct n as [|c r]; [simpl; split; [tauto | discriminate]|].
-  unfold good_name, good_nameb. rewrite !andb_true_iff, negb_true_iff. split.
-  - intros (H1 & H2 & H3). repeat split; try assumption.
-    destruct (list_eqb (c :: r) kw_not) eqn:E; [|reflexivity]. apply list_eqb_eq in E. contradiction.
-  - intros ((H1 & H2) & H3). repeat split; try assumption. intro E. apply list_eqb_eq in E. congruence.
-Qed.
+Proof. reflexivity. Qed.
 Lemma names_ok_good nm : names_ok nm -> names_good nm.
 Proof. intros H a s E. apply good_name_b. now apply (H a). Qed.
 
@@ -141,8 +135,7 @@ Proof.
     + apply IH. intros b s. simpl. destruct (b =? a); [intros H; inversion H; subst; exact Hc | apply Hnm].
     + destruct (IH nm Hnm) as (I1 & I2 & I3 & I4).
       destruct (feed nm cs) as [ds nm1]. destruct (expected nm cs) as [ss nm2]. simpl in *. subst nm2.
-      repeat split; auto. constructor; [|assumption]. apply good_name_b. exact Hc.
-      constructor; [reflexivity | assumption].
+      repeat split; auto; try (constructor; [exact Hc | assumption]); try (constructor; [reflexivity | assumption]).
   - apply (Hcons (DExternal a v) _ Hc eq_refl (stmt_equiv_refl _) I P HP).
   - apply (Hcons (DAssume lits) _ I eq_refl (stmt_equiv_refl _) I P HP).
   - apply (Hcons (DHeu a cond bias prio t) _ Hc eq_refl (stmt_equiv_refl _) I P HP).
